@@ -1207,3 +1207,54 @@ def rule_dimension_value_unlimited(ctx):
             ctx.violated("UNLIMVAL", key, f.where(stores[0]), "a dimension value Vdata is written %s: for the unlimited dimension the stored size is 0 and the reader takes its record count from it" % ("with no test against NC_UNLIMITED" if not tests else "without numrecs supplying the value in the unlimited case"))
     ctx.floor("UNLIMVAL", 2, n, "(writers of a dimension's value Vdata)")
     return n
+
+
+def rule_coord_scan_skips_sds(ctx):
+    """CRDSCAN (C10): a dimension's strings, scale and attributes live in its coordinate variable, which the SD routines find by
+    scanning the variable list for a rank-1 variable with the dimension's name.  A one-dimensional *data set* may have that
+    name too; it is told apart by `var_type`.  The routine that stores the strings passes such a data set over and goes on to
+    the coordinate variable, so every scan does: inside a loop over the variables, a match whose `var_type` is IS_SDSVAR
+    never ends the routine with an error - or the strings SDsetdimstrs stored cannot be read back by SDgetdimstrs."""
+    from .codec import ast_walk
+    from .facts import int_name, calls_in
+    from .rules_loops import loops_of, loop_body, _terminates
+    prog = ctx.prog
+    n = 0
+    for f in prog.lib_funcs():
+        if not f.rel.endswith("mfhdf/src/mfsd.c") or not f.raw.get("ast"):
+            continue
+        k = 0
+        for lp, st in loops_of(f):
+            if lp[0] != "for":
+                continue
+            tests = []
+
+            def vis(nd, s2):
+                if nd[0] == "if" and nd[1] is not None:
+                    for x in walk(nd[1], True):
+                        if x[0] == "bin" and x[1] in ("==", "!=") and kind(strip(x[2])) == "mem" and strip(x[2])[2] == "var_type" and int_name(x[3]) in ("IS_SDSVAR", "IS_CRDVAR"):
+                            tests.append((nd, x[1], int_name(x[3])))
+                return True
+
+            ast_walk(loop_body(lp), vis)
+            if not tests:
+                continue
+            k += 1
+            n += 1
+            key = "CRDSCAN:%s#%d" % (f.name, k)
+            line = lp[-3] if isinstance(lp[-3], int) else f.line
+            bad = None
+            for nd, op, which in tests:
+                if which == "IS_SDSVAR" and op == "==":
+                    arm = nd[2]
+                    fails = []
+                    ast_walk(arm, lambda k_, s2: (fails.extend(1 for c in (calls_in(k_[1], True) if k_[0] in ("s", "if") and k_[1] is not None else []) if c[1] in ("HEpush", "HEreport")), True)[1])
+                    if fails:
+                        bad = nd
+            if bad is not None:
+                bl = bad[-3] if isinstance(bad[-3], int) else line
+                ctx.violated("CRDSCAN", key, f.where(bl), "the scan for the dimension's coordinate variable fails when it meets a data set of the same name, although the setter passes it over and the coordinate variable may follow: what was stored cannot be read back")
+            else:
+                ctx.holds("CRDSCAN", key, f.where(line), "the scan tells data sets and coordinate variables apart by var_type and never fails on a same-named data set", nontrivial=True)
+    ctx.floor("CRDSCAN", 3, n, "(scans of the variable list that look at var_type)")
+    return n
